@@ -18,6 +18,13 @@ CLAIMS = {
                 design="DESIGN.md section 5 C12"),
 }
 
+CLAIMS.update({
+    "C13": dict(technique="static analysis: guard-relation/dominance, write-before-refusal (effect on paths) and operand-provenance rules over MIR",
+                design="DESIGN.md section 5 C13"),
+    "C20": dict(technique="static analysis: predicate-shape extraction (guard relations, quantifier form, closure bodies) and who-may-construct over MIR",
+                design="DESIGN.md section 5 C20"),
+})
+
 NOT_APPLICABLE = {
     "C09": "arithmetic exactness over all operand pairs is a value property: no sound static argument in reach without "
            "bit-precise solving (another technique family); structural fragments do not imply it",
